@@ -137,8 +137,8 @@ def c11_cases(chk, quick):
             c["elems"] = "paired32"
     # sketch sizes beyond one byte (and, thorough, beyond two bytes) on a few random sequences
     # sequences of a few thousand elements (buffers, block-wise processing) with a small sketch
-    for _ in range(2 if quick else 6):
-        n = rnd.randint(2100, 5200)
+    for k in range(2 if quick else 6):
+        n = rnd.randint(4200, 5200) if k % 2 == 0 else rnd.randint(8300, 9000)   # beyond 2^12 and beyond 2^13 elements
         alpha = rnd.randint(300, 900)
         seq = [rnd.randint(1, alpha) for _ in range(n)]
         s2 = list(seq)
